@@ -83,7 +83,7 @@ def ak_flat(system, rows, momentum=False, spelling="generic", extra=None, alt=0,
     cols = {n: numpy.array([r[j] for r in rows], dtype=dtype) for j, n in enumerate(names)}
     if extra:
         for k, vals in extra.items():
-            cols[k] = numpy.asarray(vals)
+            cols[k] = vals if isinstance(vals, ak.Array) else numpy.asarray(vals)
     if len(rows) == 0:
         cols = {k: numpy.asarray(v, dtype=numpy.float64) for k, v in cols.items()}
     return ak.zip(cols, with_name=ak_record_name(d, momentum), behavior=_behavior())
@@ -217,6 +217,9 @@ def build_layout(layout, system, rows, momentum=False, spelling="generic", extra
             ex["eta"] = numpy.array([0.3, -0.3, 1.2, -1.2, 0.1, 2.0])
         if d == 4 and system[2] == "t":
             ex["tau"] = numpy.array([1.0, 2.0, 3.0, 0.5, 0.25, 4.0])
+    if extra == "option":
+        # an option-typed non-coordinate field that is missing for elements whose coordinates are all present
+        ex["iso"] = ak.Array([0.125, None, 0.375, 0.5, None, 0.75])
     flat = ak_flat(system, rows, momentum, spelling, ex, alt, dtype=dtype)
     if layout == "flat":
         return flat
